@@ -36,13 +36,14 @@ def fuzzPair (ls : List PatchLine) (f : Nat) : Nat × Nat :=
 
 /-- `AdmissibleB file h iw maxFuzz p f`: the hunk may be laid over file lines `[p, p + |old side|)` using fuzz `f`:
     `f` within the `-F` limit and within the context the hunk carries, something is left to compare,
-    the old side fits in the file, and every old-side line outside the ignored outer context matches. -/
+    the old side fits in the file but for the lines at its end which fuzz ignores (D99: those need not have a line of the
+    file at all), and every old-side line outside the ignored outer context matches. -/
 def admissibleB (file : List Line) (h : Hunk) (iw : Bool) (maxFuzz : Int) (p f : Nat) : Bool :=
   let olds := oldOf h.lines
   let (pf, sf) := fuzzPair h.lines f
   decide ((f : Int) ≤ maxFuzz) && decide (f ≤ max (prefixCtx h.lines) (suffixCtx h.lines))
     && decide (pf + sf < h.lines.length)
-    && decide (p + olds.length ≤ file.length)
+    && decide (p + olds.length ≤ file.length + sf) && decide (p < file.length)
     && (List.range olds.length).all fun i =>
          decide (i < pf) || decide (olds.length - sf ≤ i) ||
          (match file[p + i]?, olds[i]? with
@@ -60,17 +61,21 @@ def hunkOutput (file : List Line) : List PatchLine → Nat → List Out
        | none => []) ++ hunkOutput file rest (cur + 1)
     else hunkOutput file rest (cur + 1)
 
+/-- where the file goes on after a hunk placed at `p`: behind its old side, or at the end of the file if the hunk reaches beyond it
+    (context at its end which fuzz ignores: D99) -/
+def nextCursor (file : List Line) (h : Hunk) (p : Nat) : Nat := min (p + (oldOf h.lines).length) file.length
+
 /-- the intended output for a list of placements `(hunk, position)` starting from cursor `c` -/
 def spliceAt (file : List Line) : Nat → List (Hunk × Nat) → List Out
   | c, [] => copyRange file c (file.length - c)
   | c, (h, p) :: rest =>
-    copyRange file c (p - c) ++ hunkOutput file h.lines p ++ spliceAt file (p + (oldOf h.lines).length) rest
+    copyRange file c (p - c) ++ hunkOutput file h.lines p ++ spliceAt file (nextCursor file h p) rest
 
-/-- placements are in order, do not overlap, lie inside the file and start at or after cursor `c` -/
+/-- placements are in order, do not overlap, start inside the file and at or after cursor `c` -/
 def increasingB (file : List Line) : Nat → List (Hunk × Nat) → Bool
   | c, [] => decide (c ≤ file.length)
-  | c, (h, p) :: rest => decide (c ≤ p) && decide (p + (oldOf h.lines).length ≤ file.length)
-      && increasingB file (p + (oldOf h.lines).length) rest
+  | c, (h, p) :: rest => decide (c ≤ p) && decide (p ≤ file.length)
+      && increasingB file (nextCursor file h p) rest
 
 /-- brute force: all admissible `(p, f)` with `p ≥ minLine` -/
 def allAdmissible (file : List Line) (h : Hunk) (iw : Bool) (maxFuzz : Int) (minLine : Nat) : List (Nat × Nat) :=
